@@ -12,6 +12,8 @@ CLAIMED = {
  "C18": ("fault_enumeration", "agendas stepped under a scripted recording clock: every synchronize call index gets a scripted answer (Synchronized / OutOfSync(lag)), tolerance unset / 0 / between lags / huge; the clock protocol (exactly one synchronize per new time, ordering w.r.t. handlers, OutOfSync reported before model code) is checked on the history.", "the fault space (answer per call index x tolerance class) is sampled from the seed, not enumerated exhaustively; SC executions only", "deterministic simulation with clock-lag fault injection (fault K) + clock-protocol oracle", "DESIGN.md §5 C18"),
  "C11": ("fault_enumeration", "a fault-free base case (model hierarchy, event/query traffic, driver and model scheduling, every kind of run command) and one variant per (fault kind, injection point): model panic at init / invocation 0-2 of 2-3 models with str/String/u32 payloads, 3 dropped mailboxes, 2 orphan mailboxes, a query loop, a saturating loop, step time-out at blocking wait 0-4 (thorough 0-7) on ST and MT, clock lag above the tolerance at synchronisation 1-4 (1-7); each under several schedules. The reported error is judged against the causes that actually occurred in the call window (kind, model name, payload, lag); after the first fatal error every further run attempt must return Terminated without touching the time (API and time-write trace), without panicking and - where no straggling worker can exist - without running model code; non-fatal errors must leave the simulation usable.", "fault space enumerated within the stated bounds per generated base case, base cases and schedules sampled; SC executions only; model panics run under a vendored shuttle-engine patched to tolerate panics that the code under test catches", "deterministic simulation with fault enumeration (panic, dropped/orphan mailbox, stall, time-out, clock lag) + failure-classification and Terminated-contract oracles", "DESIGN.md §5 C11"),
  "C19": ("fault_enumeration", "every fault variant of the C11 enumeration (none, model panic, dropped/orphan mailbox, query loop, saturating loop, step time-out, clock lag) of a base bench with small mailboxes, leaked wakers and optional wake-on-drop handler futures is cut after every command index 0..=n and the simulation is dropped there, before or after its external handles (scheduler, keys, sources, sinks, addresses). Counted drop tokens in every model, message, reply and handler future: all released exactly once, nothing released and no model code run after drop returned; the drop returns and every executor thread has finished (simulator deadlock detection); no panic escapes.", "drop point and fault space enumerated within the stated bounds per generated base case, base cases and schedules sampled; SC executions only; memory release of the task allocations themselves is not observed by E1 (only the objects they own)", "deterministic simulation with crash-point (drop) enumeration x fault enumeration + drop-token conservation oracle", "DESIGN.md §5 C19"),
+ "C17": ("exploration", "benches whose models write to EventBuffer (capacity 1-8) and EventSlot sinks through plain/map/filter_map connections with 0 to several times the capacity per command, while the driver reads (0..capacity+2), closes and reopens them between commands; reads are compared with a reference drop-oldest FIFO / last-value slot with an open flag: exactly on the single-threaded executor (the log order is the write order), and on the multi-threaded executor by the order-insensitive consequences (retained count, per-connection order and suffix, exactly-once yielding, slot value among the per-connection last writes).", "the pure operation-sequence part of the statement has no schedule in it and is only sampled through simulated writers; concurrent reader threads are not exercised; SC executions only", "deterministic simulation of models writing to sinks + reference FIFO/slot model over the recorded history", "DESIGN.md §5 C17"),
+ "C14": ("exploration", "requestors with 0-6 repliers (plain/map/filter_map connections, capacity 1-2 mailboxes so that sub-sends suspend, repliers that query in turn), spurious wake-ups of the requesting task from other models, query sources and direct process_query, and output/requestor port clones that gain a connection at run time (connect on one clone, causally later send through another) on ST and MT under seeded schedules; every completed query is compared with the connection table: one reply per accepting connection, computed by that replier from the mapped request, in connection order, returned only after all repliers finished; every send through a clone must reach the connections added before it.", "the TaskSet / CachedRwLock bookkeeping is exercised through the real broadcaster only (no isolated component harness); connections added concurrently with a send may or may not be used; SC executions only", "deterministic simulation: shuttle-driven whole-library runs with spurious-wake fault injection + connection-table oracle for replies and clones", "DESIGN.md §5 C14"),
  # id: (level category, level text, level note, technique, design_ref)
  "C02": ("exploration", "seeded search over MT schedules (uniform/sticky random, PCT depth 1-6, round robin) of generated acyclic benches with capacity 1-2 mailboxes; causal order judged offline with vector clocks over completed port operations. Evidence, not proof: interleavings are sampled at atomic-operation granularity under sequential consistency.", "trusts shuttle's execution model (SC atomics), the harness log (std primitives, no scheduling points) and the offline vector-clock reconstruction", "deterministic simulation: shuttle-driven whole-library runs + offline vector-clock oracle", "DESIGN.md §5 C02"),
  "C03": ("exploration", "seeded search over benches (plain/map/filter_map edges to models and sinks, capacities 1-16) and schedules on ST and MT; every logged send is compared with the connection table (expected deliveries) as a multiset.", "trusts the connection-table reference (a few lines) and the harness log; SC executions only", "deterministic simulation: shuttle-driven whole-library runs + conservation oracle against the connection table", "DESIGN.md §5 C03"),
